@@ -24,11 +24,12 @@ def main():
     scratch = "--scratch" in args
     jobs = int(args[args.index("--jobs") + 1]) if "--jobs" in args else 3
     skip = set()
-    for fl in ("--jobs", "--dir"):
+    for fl in ("--jobs", "--dir", "--props"):
         if fl in args:
             skip.add(args[args.index(fl) + 1])
     names = [a for a in args if not a.startswith("--") and a not in skip] or sorted(d for d in os.listdir(SEEDED) if os.path.exists(os.path.join(SEEDED, d, "patch.diff")))
     own = "--own" in args
+    only_props = args[args.index("--props") + 1].split(",") if "--props" in args else None
     for name in names:
         patch = os.path.join(SEEDED, name, "patch.diff")
         res = {}
@@ -40,7 +41,7 @@ def main():
                 if a.returncode != 0:
                     print(name, "patch does not apply:", a.stderr[:200]); continue
                 envs = []
-                for p in ([name.split("-")[0]] if own else props()):
+                for p in ([name.split("-")[0]] if own else (only_props or props())):
                     b = os.path.join(tmp, "b-" + p)
                     envs.append((p, dict(os.environ, VX_REPO=os.path.join(tmp, "wt"), VX_BUILD=b, VX_EVIDENCE_DIR=os.path.join(b, "ev"), VX_REPLAYS_DIR=os.path.join(SEEDED, name, "replays"), VX_THREADS="4")))
                 with cf.ThreadPoolExecutor(max_workers=jobs) as ex:
@@ -60,7 +61,7 @@ def main():
                     res[prop] = {"exit": rc, "lines": lines}
             finally:
                 subprocess.run(["git", "-C", "/repo", "checkout", "--", "."], capture_output=True)
-        json.dump({"mode": "scratch worktree of /repo with the patch applied (replay enabled, built against that tree)" if scratch else "applied to /repo (as registered, replay enabled)", "results": res}, open(os.path.join(SEEDED, name, ("result.own.json" if own else "result.scratch.json") if scratch else "result.json"), "w"), indent=1)
+        json.dump({"mode": "scratch worktree of /repo with the patch applied (replay enabled, built against that tree)" if scratch else "applied to /repo (as registered, replay enabled)", "results": res}, open(os.path.join(SEEDED, name, ("result.own.json" if own else ("result.props.json" if only_props else "result.scratch.json")) if scratch else "result.json"), "w"), indent=1)
         print("%-8s %s" % (name, " ".join("%s:%s" % (p, {0: "ok", 1: "VIOL", 2: "und"}.get(r["exit"], r["exit"])) for p, r in sorted(res.items()))))
 
 if __name__ == "__main__":
